@@ -239,3 +239,25 @@ def c12_pyule(ctx, case):
     res = ref.herm_toeplitz(r).dot(A)
     ctx.check(float(np.max(np.abs(res[1:]))) <= 1e-11 * float(r[0].real) * float(np.sum(np.abs(A))),
               "pyule.ar does not satisfy the biased Yule-Walker equations")
+    # the same object given another record (same order): its model must be that of the record it holds now
+    y = np.asarray(x)[::-1].copy() * 0.5 + (np.arange(len(x)) % 3) * float(np.std(np.asarray(x)) + 1e-300)
+    if np.iscomplexobj(x):
+        y = y.astype(complex)
+    a2, P2, k2 = spectrum.aryule(y, p, norm="biased")
+    obj.data = y
+    obj()
+    ctx.close(np.asarray(obj.ar).astype(complex), np.asarray(a2).astype(complex), "pyule re-used with another record: .ar vs aryule of that record",
+              rtol=1e-12, atol=0, sig={"clause": "object-reused"})
+    ctx.close(np.asarray(obj.reflection).astype(complex), np.asarray(k2).astype(complex),
+              "pyule re-used with another record: .reflection vs aryule of that record", rtol=1e-12, atol=0, sig={"clause": "object-reused"})
+
+
+# ---- number-type invariance (integer samples of a narrow dtype) -------------------
+from vlib import dtypecheck as _dt   # noqa: E402
+
+
+@sub("C12.dtype", strategy=_dt.int_case(sorted(_dt.TABLES["C12"])), quick=300, thorough=6000,
+     doc="the same integer-valued samples stored as int16/int8/uint8/uint16/int32/int64 or as float64 give the same result "
+         "(products of two narrow integers do not fit their dtype): " + ", ".join(sorted(_dt.TABLES["C12"])))
+def c12_dtype(ctx, case):
+    _dt.body(ctx, case, _dt.TABLES["C12"])
